@@ -8,6 +8,8 @@ import Inkayaku.Model.Uci
 import Inkayaku.Model.SessionOps
 import Inkayaku.Model.Lichess
 import Inkayaku.Model.SpecSearch
+import Inkayaku.Model.Console
+import Inkayaku.Spec.UciOut
 /-!
 `modeldriver`: the model side of the line protocol.  `modeldriver run` reads one request per line from stdin and
 writes one canonical answer per line.  Imports Model/Spec/Gen only (no Mathlib), so it links as a native executable.
@@ -64,6 +66,13 @@ def dispatch (op : String) (args : List String) : String :=
   | "json" => Lichess.handleJson args
   | "pgn" => Pgn.handlePgn args
   | "uciparse" => Uci.handleUciParse args
+  | "console" => Console.handleConsole args
+  | "spec:uciout" =>
+    match args with
+    | [t] => match Util.tokenString t with
+      | some line => if UciOut.accepts line.toList then "accept" else "reject"
+      | none => "bad-request"
+    | _ => "bad-request"
   | "ucimove" => Uci.handleUciMove args
   | "table" => Table.handleTable args
   | "reps" => History.handleReps args
